@@ -347,6 +347,41 @@ impl Flat {
         hi - lo
     }
 
+    /// Scale for "within rounding" judgements of utilities, regrets and bounds: the smaller of
+    /// max |payoff| and the sum over terminals of (chance reach x |payoff|). Every utility,
+    /// counterfactual value and regret of the game is a sum of terms reach x payoff with player
+    /// reaches <= 1, so its magnitude - and the rounding error of computing it in any order - is
+    /// bounded by the second quantity; on ordinary games the first is the smaller one. The two
+    /// differ when a payoff of order 1/p sits behind a chance outcome of probability p: max |payoff|
+    /// then says nothing about the size of the numbers the game is about.
+    pub fn effective_scale(&self) -> f64 {
+        fn walk(f: &Flat, n: usize, reach: f64, acc: &mut f64) {
+            match &f.nodes[n] {
+                FNode::Term(p) => *acc += reach * p.abs(),
+                FNode::Chance(ci, kids) => {
+                    for (k, c) in kids.iter().enumerate() {
+                        walk(f, *c, reach * f.chance_probs[*ci][k], acc);
+                    }
+                }
+                FNode::Player(_, _, kids) => {
+                    for c in kids {
+                        walk(f, *c, reach, acc);
+                    }
+                }
+            }
+        }
+        let mut acc = 0.0;
+        if !self.nodes.is_empty() {
+            walk(self, 0, 1.0, &mut acc);
+        }
+        let m = self.max_abs_payoff();
+        if acc.is_finite() && acc < m {
+            acc
+        } else {
+            m
+        }
+    }
+
     pub fn max_abs_payoff(&self) -> f64 {
         self.nodes
             .iter()
